@@ -90,6 +90,14 @@ def derivations(g, rule, kind, seed):
         head = out[0].split("::")[0] if out else None
         if head:
             out += [f"{head}::-0", f"{head}::007", f"{head}::" + "9" * 400, f"{head}:: 0.000", f"{head}::-00.10"]
+        # long derivations straight from the rule: every unbounded repetition taken 17 / 310 / 400 times (past the
+        # exactness of a double, past the range of a double)
+        rnd = random.Random(seed)
+        for rep in (17, 310, 400):
+            for _ in range(4):
+                s = gbnf.sample(g, rule, rnd, universe="0129", max_rep=rep, ws=("", " "), stretch=True)
+                if s is not None and len(s) < 5000:
+                    out.append(s)
         return out, True
     rnd = random.Random(seed)
     out = []
